@@ -94,9 +94,13 @@ func (r *Reconciler) reconcileConfiguration(ctx context.Context, config *configa
 
 	// If the target is persistent, mark the configuration PERSISTED.
 	if configurable.Persistent {
-		if config.Status.State != configapi.ConfigurationStatus_PERSISTED {
+		if config.Status.State != configapi.ConfigurationStatus_PERSISTED ||
+			config.Status.Applied.Mastership.Term < config.Status.Mastership.Term {
 			log.Infof("Skipping synchronization of Configuration '%s': target is persistent", config.ID)
 			config.Status.State = configapi.ConfigurationStatus_PERSISTED
+			// A persistent target keeps its configuration: nothing is re-sent, the new term is simply acknowledged
+			config.Status.Applied.Mastership.Master = config.Status.Mastership.Master
+			config.Status.Applied.Mastership.Term = config.Status.Mastership.Term
 			if err := r.updateConfigurationStatus(ctx, config); err != nil {
 				return controller.Result{}, err
 			}
